@@ -49,3 +49,42 @@ Theorem C12_pack : forall bits codes, bits = 4 \/ bits = 8 \/ bits = 16 \/ bits 
   decode_codes bits (length codes) (encode_codes bits codes) = codes.
 Proof. exact decode_encode. Qed.
 Print Assumptions C12_pack.
+
+(* ---- b = 32: the nearest float32; b = 64: the exact value ---- *)
+From Coq Require Import Reals.
+From Flocq Require Import Core.Core IEEE754.BinarySingleNaN IEEE754.PrimFloat.
+From Syz Require Import F32Proofs.
+
+(* what a 32-bit collection reads back is the binary32 number nearest to the component (ties to even), for every
+   finite component whose rounding does not overflow the binary32 range; in particular it is finite *)
+Theorem C12_f32_nearest : forall x : PrimFloat.float,
+  BinarySingleNaN.is_finite (Prim2B x) = true ->
+  (Rabs (round radix2 (FLT_exp (-149) 24) ZnearestE (BinarySingleNaN.B2R (Prim2B x))) < bpow radix2 128)%R ->
+  BinarySingleNaN.B2R (Prim2B (load_code 32 (store_code 32 x)))
+    = round radix2 (FLT_exp (-149) 24) ZnearestE (BinarySingleNaN.B2R (Prim2B x))
+  /\ BinarySingleNaN.is_finite (Prim2B (load_code 32 (store_code 32 x))) = true.
+Proof. exact f32_nearest. Qed.
+Print Assumptions C12_f32_nearest.
+
+(* hence the error is at most half a unit in the last place of binary32 *)
+Theorem C12_f32_error : forall x : PrimFloat.float,
+  BinarySingleNaN.is_finite (Prim2B x) = true ->
+  (Rabs (round radix2 (FLT_exp (-149) 24) ZnearestE (BinarySingleNaN.B2R (Prim2B x))) < bpow radix2 128)%R ->
+  (Rabs (BinarySingleNaN.B2R (Prim2B (load_code 32 (store_code 32 x))) - BinarySingleNaN.B2R (Prim2B x))
+   <= / 2 * ulp radix2 (FLT_exp (-149) 24) (BinarySingleNaN.B2R (Prim2B x)))%R.
+Proof. exact f32_error. Qed.
+Print Assumptions C12_f32_error.
+
+(* idempotent at 32 bits: storing a retrieved component retrieves the same component — every bit pattern *)
+Theorem C12_f32_idempotent : forall k, load_code 32 (store_code 32 (load_code 32 k)) = load_code 32 k.
+Proof. exact f32_idempotent. Qed.
+Print Assumptions C12_f32_idempotent.
+
+(* b = 64: every component, NaN and infinities included, is read back exactly *)
+Theorem C12_f64_exact : forall x : PrimFloat.float, load_code 64 (store_code 64 x) = x.
+Proof. exact b64_exact. Qed.
+Print Assumptions C12_f64_exact.
+
+(* the finite 1e39 is beyond the binary32 range: it is stored as +infinity (recorded finding of C20 at 32 bits) *)
+Example C12_f32_overflow : load_code 32 (store_code 32 1e39%float) = PrimFloat.infinity.
+Proof. vm_compute. reflexivity. Qed.
